@@ -1,5 +1,5 @@
 # Wording of MANIFEST.json per property.
-HOOK_COMMITS = ['7bf3a7c']
+HOOK_COMMITS = ['7bf3a7c', 'e0ec659']
 NOT_YET = {}
 TEXT = {
  'C19': dict(
@@ -87,5 +87,30 @@ TEXT = {
         'PARTIAL: scheduler latency and that heartbeats arrive within the lease in a fault-free cluster are runtime behaviour (hypotheses of the theorems), measured not proved.',
   note='Trusted: Coq kernel; wall clock of the sandbox for the real-timer scenarios; the leaderLoop interval formula max(lease-maxDiff, 10ms) is re-stated in the harness (the loop is not callable) and exercised in the real-timer runs.',
   technique='Coq proof (counting lemma + timed-sequence argument) + differential grid on checkLeaderLease + measured real-timer clusters',
+ ),
+ 'C10': dict(
+  level='Machine-checked theorems (Coq) over the model of NewRaft (recover) for ANY durable image: if it returns, the server is a Follower with exactly the durable state found, the cached tail is the last entry of the '
+        'log store, the snapshot is the newest usable one, the FSM holds exactly that snapshot (plus, with RestoreCommittedLogs, log(snapshot, min(stagedCommit,last)] replayed in index order, each once - C10_replay_in_order); '
+        'a restarted server satisfies the vote/term well-formedness of C06, so the C06 history theorems hold across restarts. Tie: every image reached along crash-cut sequences in three store flavours is restarted with the real NewRaft '
+        'under a watchdog and diffed against the model (returns/error/panic/blocks, trace, state); monitor recomputes the expected state from the image. '
+        'One defect repaired (fix: configuration scan start, F4a), one recorded as KNOWN-FINDING (F4b: >128 committed batches block NewRaft; the model proves it: C10_refuted_blocks). '
+        'PARTIAL: "rejoins and catches up without breaking any safety property" is the other properties; "NewRaft returns" is proved only as the characterisation of when the model does not panic/block.',
+  note='Trusted: Coq kernel; harness stores and watchdog.',
+  technique='Coq proof (characterisation of recover; replay order) + differential restart of every crash-cut image',
+ ),
+ 'C02': dict(
+  level='PARTIAL. Machine-checked theorems (Coq) for the per-server half: whatever commit index reaches processLogs, the FSM is handed exactly log(lastApplied, index] in increasing index order, each entry once, an index at or below '
+        'lastApplied is never applied again, start-up restores exactly the newest usable snapshot. The cross-server half (identical entry at an index on every FSM; only committed entries applied) is NOT proved for all runs (it needs '
+        'leader completeness); it is checked on every FSM call of real cluster histories by monitors. Those monitors found a genuine defect (F3-ii, KNOWN-FINDING: stale entries kept below an installed snapshot are later served to a new follower and applied) '
+        'and a deviation in how configuration entries are counted (F8, KNOWN-FINDING).',
+  note='Trusted: Coq kernel; harness. The known findings are reported as KNOWN-FINDING lines and keyed by a diagnosis in the signature, other violations of the same monitors are still reported.',
+  technique='Coq proof (processLogs stream order) + differential node sequences + monitored real-cluster histories',
+ ),
+ 'C12': dict(
+  level='PARTIAL. Machine-checked theorem (Coq): after a successful InstallSnapshot (no store failure) the AppendEntries whose previous entry is the snapshot boundary passes the previous-entry check whatever stale/divergent/compacted log the follower held '
+        '(C12_snapshot_then_append_accepted) - the pinned tree violated this (F3-i, repaired by a fix: commit found and confirmed through this check). Leader-side round counting (replicateTo) and the bound in election timeouts are not proved: '
+        'probabilistic timers and scheduler behaviour cannot be exhibited by the model; they are measured on real clusters (convergence within 20 election timeouts after a random fault period; InstallSnapshot-repeat counter).',
+  note='Trusted: Coq kernel; wall clock for the convergence scenarios.',
+  technique='Coq proof (follower-side progress after snapshot install) + exhaustive differential enumeration + measured real-timer convergence',
  ),
 }
